@@ -145,6 +145,8 @@ fn templates() -> Vec<String> {
     for p in PATS.iter() {
         t.push(format!("keys {}", p).trim_end().to_string());
         t.push(format!("ls {}", p).trim_end().to_string());
+        t.push(format!("watch {}", p).trim_end().to_string());
+        t.push(format!("unwatch {}", p).trim_end().to_string());
         t.push(format!("set-permissions x rwix {}", p));
         t.push(format!("set-permissions u rwix {}", p));
     }
@@ -165,8 +167,19 @@ fn templates() -> Vec<String> {
     ] {
         t.push(s.to_string());
     }
+    for a in ADM_LINES.iter() {
+        t.push(a.to_string());
+    }
     t
 }
+
+/// What an administrator does on the node between the commands of the session under observation (prefix `ADM:<db>:`;
+/// `{SEC}` is the twin's own secret text). The $$ keys differ between the twins before and after; whatever reaches the
+/// observed session because of these commands must be the same on both twins.
+const ADM_LINES: [&str; 12] = [
+    "ADM:db:set $$secret {SEC}-2", "ADM:adb:set $$secret {SEC}-2", "ADM:db:set-safe $$secret 7 {SEC}-3", "ADM:db:remove $$secret", "ADM:db:increment $$count_{SEC} 3", "ADM:db:increment $$count 3",
+    "ADM:db:create-user y ytok-{SEC}", "ADM:db:set-permissions x rw {SEC}*", "ADM:db:set $$token2 {SEC}", "ADM:db:remove $$only1", "ADM:adb:remove $$only1", "ADM:db:set secret fromadmin",
+];
 
 fn random_line(r: &mut Rng, words: &[String], tmpl: &[String]) -> String {
     if r.chance(3, 4) {
@@ -221,7 +234,8 @@ fn run_pair_on(kind: Kind, with_conflict: bool, secondary: bool, lines: &[String
         }
     }
     let mut forwarded_secure: Option<(String, String)> = None;
-    let before = [secure_dump(&a), secure_dump(&b)];
+    let mut secure_notice: Option<(String, String)> = None;
+    let mut before = [secure_dump(&a), secure_dump(&b)];
     let mut traces: Vec<Vec<(String, String, Vec<String>)>> = vec![];
     let mut panicked = None;
     let mut culprit: Option<String> = None;
@@ -232,6 +246,30 @@ fn run_pair_on(kind: Kind, with_conflict: bool, secondary: bool, lines: &[String
         for l in lines {
             let dbs = node.dbs.clone();
             let l_raw = l;
+            if let Some(rest) = l_raw.strip_prefix("ADM:") {
+                // (secondary twins: an administrator's write would be forwarded with the link's authority, which is
+                // not what is observed here)
+                if !secondary {
+                    let (db, cmd) = rest.split_once(':').unwrap_or(("db", rest));
+                    let sec = if i == 0 { "alpha-secret-0" } else { "bravo-secret-1" };
+                    let mut adm = Session::new();
+                    adm.call(&dbs, "auth admin pwd");
+                    let tok = if kind == Kind::UserToken { format!("tok-{}", sec) } else { "tok".to_string() };
+                    adm.call(&dbs, &format!("use-db {} {}", db, tok));
+                    let _ = std::panic::catch_unwind(std::panic::AssertUnwindSafe(|| adm.call_raw(&dbs, &cmd.replace("{SEC}", sec))));
+                    adm.drain();
+                    adm.disconnect(&dbs);
+                    before[i] = secure_dump(node);
+                    let pushed: Vec<String> = s.drain().iter().map(|p| normalize(p)).collect();
+                    if secure_notice.is_none() {
+                        if let Some(n) = pushed.iter().find(|p| ["changed $$", "changed-version $$", "removed $$"].iter().any(|x| p.starts_with(x))) {
+                            secure_notice = Some((l_raw.clone(), n.clone()));
+                        }
+                    }
+                    tr.push((l_raw.clone(), "(administrator)".to_string(), pushed));
+                }
+                continue;
+            }
             let l = &l_raw.replace("{CK}", &conflict_key(node));
             let r = std::panic::catch_unwind(std::panic::AssertUnwindSafe(|| s.call_raw(&dbs, l)));
             match r {
@@ -314,14 +352,17 @@ fn run_pair_on(kind: Kind, with_conflict: bool, secondary: bool, lines: &[String
     if let Some((l, m)) = &upstream_changed {
         v.report(json!({"check": "twin", "problem": "secure-key-changed-on-the-primary-through-a-secondary", "word": l.split(' ').next().unwrap_or(""), "session": format!("{:?}", kind)}), replay(&format!("'{}' made the secondary send {:?}; executed by the primary it changed a $$ key there", l, m)));
     }
+    if let Some((l, n)) = &secure_notice {
+        v.report(json!({"check": "twin", "problem": "notification-naming-a-secure-key-reached-non-admin", "word": l.splitn(3, ':').nth(2).unwrap_or("").split(' ').next().unwrap_or(""), "session": format!("{:?}", kind)}), replay(&format!("after the administrator's '{}' the observed session was sent {:?}", l, n)));
+    }
     if let Some((l, m)) = &forwarded_secure {
         v.report(json!({"check": "twin", "problem": "secure-key-write-forwarded-to-the-primary-by-non-admin", "word": l.split(' ').next().unwrap_or(""), "session": format!("{:?}", kind)}), replay(&format!("'{}' made the secondary send '{}' to its primary", l, m)));
     }
     // 1. noninterference
     if traces[0] != traces[1] {
         let idx = (0..traces[0].len().min(traces[1].len())).find(|i| traces[0][*i] != traces[1][*i]).unwrap_or(0);
-        let l = &lines[idx];
-        let word = l.split(' ').next().unwrap_or("").to_string();
+        let l = &traces[0][idx].0.clone();
+        let word = if l.starts_with("ADM:") { format!("administrator:{}", l.splitn(3, ':').nth(2).unwrap_or("").split(' ').next().unwrap_or("")) } else { l.split(' ').next().unwrap_or("").to_string() };
         let no_arg_words = ["arbiter", "unwatch-all", "cluster-state", "metrics-state", "list-commands"];
         let arg = l.split(' ').nth(1).unwrap_or("");
         let arg_class = if no_arg_words.contains(&word.as_str()) || arg.is_empty() {
@@ -408,6 +449,14 @@ pub fn run(tier: &str) -> i32 {
                 for c in [false, true] {
                     cases.push((k, c, vec![first.to_string(), t.clone()]));
                 }
+            }
+        }
+    }
+    // systematic: a subscription (by name or by pattern), then every administrator action, then the end of the subscription
+    for k in [Kind::DbToken, Kind::UserToken] {
+        for w in PATS.iter().map(|p| format!("watch {}", p).trim_end().to_string()).chain(["watch $$secret", "watch secret", "watch $$count", "watch $$only1", "watch $secret"].iter().map(|x| x.to_string())) {
+            for a in ADM_LINES.iter() {
+                cases.push((k, false, vec![w.clone(), a.to_string(), "unwatch-all".to_string(), a.to_string()]));
             }
         }
     }
